@@ -175,7 +175,11 @@ def run_manager(sysm, ops, scale, out, align=None):
         if op == 'AddEnd':
             if arg not in present:
                 return None, present         # species without instance cannot be loaded: outside this model
-            man.add_end_molecule(sysm.end_molecule(arg))
+            # both documented ways of attaching an end molecule
+            if (len(ev) + len(arg)) % 2:
+                man.add_end_molecule(sysm.end_molecule(arg))
+            else:
+                man.molecule_correspondence[arg].end = sysm.end_molecule(arg)
             ev.append({'op': 'AddEnd', 'sp': arg})
         elif op == 'CalcMaps':
             if align:
